@@ -371,6 +371,29 @@ def binary_ops():
 
     def bc(u, n):
         return list(u) if len(u) == n else [u[0]] * n
+    # the operators of a variable: (+v).__op__(a)
+    xv, yv = list(x.value), list(y.value)
+    for nm, mk, want in (
+            ('3.0 - x', lambda: 3.0 - x, [3.0 - t for t in xv]),
+            ('x - 3', lambda: x - 3, [t - 3 for t in xv]),
+            ('x - y', lambda: x - y, [a - b for a, b in zip(xv, yv)]),
+            ('y + x', lambda: y + x, [a + b for a, b in zip(xv, yv)]),
+            ('2 + x', lambda: 2 + x, [2 + t for t in xv]),
+            ('x * 4', lambda: x * 4, [4 * t for t in xv]),
+            ('-2.5 * x', lambda: -2.5 * x, [-2.5 * t for t in xv]),
+            ('x / 2.0', lambda: x / 2.0, [t / 2.0 for t in xv]),
+            ('x[1]', lambda: x[1], [xv[1]]),
+            ('x[-1]', lambda: x[-1], [xv[-1]]),
+            ('w[[2, 0]]', lambda: w[[2, 0]], [3.0, 1.0])):
+        count['binary'] = count.get('binary', 0) + 1
+        try:
+            got = list(mk().value())
+        except Exception as e:
+            fail('binop-value', {'expression': nm, 'raised': repr(e)})
+            continue
+        if not close(got, want):
+            fail('binop-value', {'expression': nm, 'value': got,
+                                 'expected': want})
     for n1, mk1 in funcs().items():
         f = mk1()
         fv = list(f.value())
